@@ -44,6 +44,10 @@ pub const SR: u64 = 17; // sweep of our to_remote output of UR
 pub const JR: u64 = 18; // justice spend of the counterparty's to_local output of UR
 pub const UN: u64 = 19; // counterparty commitment that pays us nothing (no to_remote output): nothing of ours to sweep
 pub const X0: u64 = 20; // unrelated transactions X0..X0+9
+pub const UP: u64 = 31; // the counterparty's PREVIOUS, not yet revoked commitment (number 22) with an HTLC we offered
+pub const SP: u64 = 32; // sweep of our to_remote output of UP
+pub const TP: u64 = 33; // our timeout claim of the HTLC output of UP
+pub const VP: u64 = 34; // spend of that claim's output
 
 /// Deliver a block connection the way the real front end does: compact proof, or — when requested, or
 /// when the compact filter has a false positive for a watched outpoint (`TxoProof::verify` refuses the
@@ -249,6 +253,9 @@ impl World {
         // holder commitment 23 with our output and two offered HTLCs, known to the enforcement state
         let commit_num = 23u64;
         let cp_point = lightning_signer::util::test_utils::key::make_test_pubkey(12);
+        let prev_point = lightning_signer::util::test_utils::key::make_test_pubkey(14);
+        let (up_to_holder, up_to_cp) = (1_400_000u64, 1_500_000u64);
+        let we_offered = vec![HTLCInfo2 { value_sat: 50_000, payment_hash: PaymentHash([7; 32]), cltv_expiry: 130 }];
         let (to_holder, to_cp, feerate) = (1_000_000u64, 1_900_000u64, 1000u32);
         let offered = vec![
             HTLCInfo2 { value_sat: 30_000, payment_hash: PaymentHash([1; 32]), cltv_expiry: 100 },
@@ -256,7 +263,12 @@ impl World {
         ];
         node.with_channel(&channel_id, |chan| {
             chan.set_next_holder_commit_num_for_testing(commit_num + 1);
+            // the counterparty has signed 22 (previous, not yet revoked) and 23 (current)
+            chan.set_next_counterparty_commit_num_for_testing(commit_num, prev_point);
             chan.set_next_counterparty_commit_num_for_testing(commit_num + 1, cp_point);
+            chan.set_next_counterparty_revoke_num_for_testing(commit_num - 1);
+            chan.enforcement_state.previous_counterparty_commit_info =
+                Some(CommitmentInfo2::new(true, up_to_holder, up_to_cp, vec![], we_offered.clone(), feerate));
             chan.enforcement_state.current_holder_commit_info =
                 Some(CommitmentInfo2::new(false, to_cp, to_holder, offered.clone(), vec![], feerate));
             persister.update_channel(&node.get_id(), chan).unwrap();
@@ -274,6 +286,21 @@ impl World {
             .transaction
             .clone();
         let uc_our = uc.output.iter().position(|o| o.value.to_sat() == uc_to_holder).expect("to_remote output") as u32;
+        let up = node
+            .with_channel(&channel_id, |chan| {
+                let oic = lightning_signer::channel::Channel::htlcs_info2_to_oic(&vec![], &we_offered);
+                Ok(chan.make_counterparty_commitment_tx(&prev_point, commit_num - 1, feerate, up_to_holder, up_to_cp, oic))
+            })
+            .unwrap()
+            .trust()
+            .built_transaction()
+            .transaction
+            .clone();
+        let up_our = up.output.iter().position(|o| o.value.to_sat() == up_to_holder).expect("to_remote output") as u32;
+        let up_h = up.output.iter().position(|o| o.value.to_sat() == 50_000).expect("htlc output") as u32;
+        let sp = mk_tx(vec![OutPoint::new(up.compute_txid(), up_our)], 1, 27);
+        let tp = mk_tx(vec![OutPoint::new(up.compute_txid(), up_h)], 1, 28);
+        let vp = mk_tx(vec![OutPoint::new(tp.compute_txid(), 0)], 1, 29);
         let un = node
             .with_channel(&channel_id, |chan| Ok(chan.make_counterparty_commitment_tx(&cp_point, commit_num, feerate, 0, 2_975_000, vec![])))
             .unwrap()
@@ -316,6 +343,10 @@ impl World {
         txs.insert(UC, uc);
         txs.insert(UR, ur);
         txs.insert(UN, un);
+        txs.insert(UP, up);
+        txs.insert(SP, sp);
+        txs.insert(TP, tp);
+        txs.insert(VP, vp);
         txs.insert(SR, sr);
         txs.insert(JR, jr);
         txs.insert(S, mk_tx(vec![OutPoint::new(utxid, our)], 1, 15));
@@ -338,7 +369,7 @@ impl World {
             ids.insert(t.compute_txid(), *k);
         }
         let base_height = node.get_tracker().height();
-        World { persister, seed, node, channel_id, funding_outpoint, txs, ids, blocks: vec![], cb: 0, base_height, filter_false_positives: 0, built: BTreeMap::from([(U, (Some(our), vec![h1.min(h2), h1.max(h2)])), (UC, (Some(uc_our), vec![])), (UR, (Some(ur_our), vec![ur_local])), (UN, (None, vec![]))]), htlc_spends: BTreeMap::from([(T1, vec![(h1, 0)]), (T2, vec![(h2, 0)]), (T12, vec![(h1, 0), (h2, 1)]), (JR, vec![(ur_local, 0)])]), ctype: ct.to_string() }
+        World { persister, seed, node, channel_id, funding_outpoint, txs, ids, blocks: vec![], cb: 0, base_height, filter_false_positives: 0, built: BTreeMap::from([(U, (Some(our), vec![h1.min(h2), h1.max(h2)])), (UC, (Some(uc_our), vec![])), (UR, (Some(ur_our), vec![ur_local])), (UN, (None, vec![])), (UP, (Some(up_our), vec![up_h]))]), htlc_spends: BTreeMap::from([(T1, vec![(h1, 0)]), (T2, vec![(h2, 0)]), (T12, vec![(h1, 0), (h2, 1)]), (JR, vec![(ur_local, 0)]), (TP, vec![(up_h, 0)])]), ctype: ct.to_string() }
     }
 
     /// tx tokens `T<id>:<inputs>:<nOut>:<kind>`; the kind of the two closing transactions comes from
@@ -359,7 +390,7 @@ impl World {
             // is compared with it after every block that confirms one of them (`our-output-not-recognised`)
             let mut kinds: BTreeMap<u64, String> = BTreeMap::new();
             kinds.insert(M, "p".to_string());
-            for id in [U, UC, UR, UN] {
+            for id in [U, UC, UR, UN, UP] {
                 let (our, hs) = w.built[&id].clone();
                 let our = our.map(|x| x.to_string()).unwrap_or("-".into());
                 let hs: Vec<String> = hs.iter().map(|x| x.to_string()).collect();
@@ -639,10 +670,10 @@ pub fn expected_view(w: &World, chain: &[Vec<u64>]) -> String {
     let fh = height_of(F);
     let ds = if fh.is_some() { None } else { [height_of(D), height_of(D2)].into_iter().flatten().min() };
     let mc = height_of(M);
-    let close = [U, UC, UR, UN].into_iter().find(|c| height_of(*c).is_some());
+    let close = [U, UC, UR, UN, UP].into_iter().find(|c| height_of(*c).is_some());
     let uc = close.and_then(|c| height_of(c));
-    let our_sweeper = |c: u64| if c == U { S } else if c == UC { SC } else { SR };
-    let second_spender = |t: u64, idx: u32| match (t, idx) { (T1, 0) => Some(V1), (T2, 0) => Some(V2), (T12, 0) => Some(V12A), (T12, 1) => Some(V12B), _ => None };
+    let our_sweeper = |c: u64| if c == U { S } else if c == UC { SC } else if c == UP { SP } else { SR };
+    let second_spender = |t: u64, idx: u32| match (t, idx) { (T1, 0) => Some(V1), (T2, 0) => Some(V2), (T12, 0) => Some(V12A), (T12, 1) => Some(V12B), (TP, 0) => Some(VP), _ => None };
     let mut tracked: Vec<((u64, u32), bool)> = vec![((0, 1), false), ((0, 2), false)]; // (outpoint, spent on chain)
     let spent_input = |id: u64, inp: (u64, u32)| -> bool {
         order.iter().any(|t| *t != id && w.txs[t].input.iter().any(|i| (w.ids.get(&i.previous_output.txid).cloned().unwrap_or(999), i.previous_output.vout) == inp))
